@@ -220,6 +220,88 @@ func checkC06(c *core.Ctx, r *core.Report) {
 				}
 			}
 		}
+		// ... and a cached-final command that DECLINES to replay although its final flag is set (its stored result was
+		// changed by a command further down) falls back to processing the rewound input; it must then start from an
+		// empty state, so on that return every cross-batch field of its own is re-assigned first
+		if cachedFinal {
+			guards := finalGuardFields(final)
+			for _, ret := range core.Returns(final) {
+				k, isK := core.RetResult(ret, 1).(*ssa.Const)
+				if !isK || k.Value == nil || k.Value.String() != "false" {
+					continue
+				}
+				flagSet := false
+				for _, ld := range guards {
+					if v, ok := ld.(ssa.Value); ok && core.BoolKnownAt(v, ret.Block()) == core.Yes {
+						flagSet = true
+					}
+				}
+				if !flagSet {
+					continue
+				}
+				// declining because the extraction of the stored result FAILED is an error path, not a replay decision
+				onError := false
+				for _, b := range final.Blocks {
+					for _, in := range b.Instrs {
+						if v, ok := in.(ssa.Value); ok && v.Type().String() == "error" && core.NilnessAt(v, ret.Block()) == core.No {
+							onError = true
+						}
+					}
+				}
+				if onError {
+					r.OK("REWIND", fmt.Sprintf("%s:declined-replay-starts-over", tname), c.Pos(ret.Pos()), "the stored result is declined only where its extraction returned an error")
+					continue
+				}
+				// fields written on the way to this return (stores in blocks dominating it)
+				reset := map[*types.Var]bool{}
+				for _, b := range final.Blocks {
+					for _, in := range b.Instrs {
+						if st, ok := in.(*ssa.Store); ok && core.InstrDominates(st, ret) {
+							if fad, ok := st.Addr.(*ssa.FieldAddr); ok {
+								reset[core.FieldOfAddr(fad)] = true
+							}
+						}
+					}
+				}
+				var missing []string
+				for f := range pa.writes {
+					if _, rd := pa.reads[f]; !rd {
+						continue
+					}
+					if _, own := named.Underlying().(*types.Struct); !own {
+						continue
+					}
+					isOwn := false
+					st := named.Underlying().(*types.Struct)
+					for i := 0; i < st.NumFields(); i++ {
+						if st.Field(i) == f {
+							isOwn = true
+						}
+					}
+					if !isOwn || reset[f] {
+						continue
+					}
+					// only fields that hold accumulated rows / buckets (pointers, slices, maps)
+					switch f.Type().Underlying().(type) {
+					case *types.Pointer, *types.Slice, *types.Map:
+					default:
+						continue
+					}
+					// counters that only describe the stored result (compared in the guard) need no reset
+					if _, isGuard := guards[f]; isGuard {
+						continue
+					}
+					missing = append(missing, f.Name())
+				}
+				sort.Strings(missing)
+				construct := fmt.Sprintf("%s:declined-replay-starts-over", tname)
+				if len(missing) > 0 {
+					r.Violation("REWIND", construct, c.Pos(ret.Pos()), fmt.Sprintf("%s.GetFinalResultIfExists can answer `no stored result` although its final flag is set, without re-assigning %s: the rewound input is then processed on top of the state the first pass left, so rows come out twice", tname, strings.Join(missing, ", ")))
+				} else {
+					r.OK("REWIND", construct, c.Pos(ret.Pos()), "where the stored result is not replayed although the final flag is set, the cross-batch fields are re-assigned first")
+				}
+			}
+		}
 		// two-pass accumulator: Rewind writes a field that Process reads
 		twoPass := false
 		for f := range ra.writes {
